@@ -119,3 +119,28 @@ def jsonable(x):
     if isinstance(x, bytes):
         return x.decode("latin-1")
     return repr(x)
+
+
+_PRIME_N = [0]
+_PRIMERS = [
+    "http://u{k}%:p%@h/a{k}%?q={k}%#f{k}%", "http://h/{k}%C3", "/{k}%zz?%#%", "http://h/?a{k}=%E2%82", "x{k}%2", "http://h/{k}\udc80", "http://h/{k}%\udc80", "http://h/{k}%F0%9F%98",
+    "http://h/{k}?%", "http://u{k}:%@h", "http://h/{k}#%E2", "//h/{k}%2", "{k}%", "http://h/{k}%c3?x=%c3#%c3",
+]
+
+
+def prime():
+    """History priming: before a monitored call, push a UNIQUE (so it is not answered from a cache) hostile text with
+    truncated / dangling escapes and lone surrogates through the constructor and read its decoded views.  Whatever the
+    shared quoters/unquoters keep from one call to the next is then in its worst state when the monitored call runs.
+    The outcome of the priming calls is ignored."""
+    from yarl import URL
+
+    _PRIME_N[0] += 1
+    k = _PRIME_N[0]
+    t = _PRIMERS[k % len(_PRIMERS)].replace("{k}", "%x" % k)
+    try:
+        u = URL(t)
+        u.path, u.query_string, u.fragment, u.user, u.password
+    except Exception:  # noqa: BLE001
+        pass
+    return t
